@@ -2,6 +2,7 @@ import SeqVerif.Base.Proto
 import SeqVerif.Model.Agg
 import SeqVerif.Extracted.C06
 import SeqVerif.Model.AggCodec
+import SeqVerif.Model.AggNum
 /-!
 Driver for C06.  Encodings: SC = `min/max/sum/total/ne/samples`; bin = `mid@token@SC`; AS = `ne#bin;bin` (`ne#-` if
 no bins); value = `nan` | `n` | `n/d`; bucket = `mid@name@value@q,q@ne`.
@@ -135,6 +136,15 @@ def fmtTs : Option (Int × Int) → String
 def fmtApiBucket (b : ApiBucket) : String :=
   s!"{b.key}@{fmtVal b.value}@{b.notExists}@{fmtList fmtVal b.quantiles}@{fmtTs b.ts}"
 
+/-- a field token of a request: `h<hex of the raw token>` is valued by the model's `tokenInt` (the specification of
+`parseNum`), a plain integer stands for itself, anything else is not a number -/
+def fieldTokenValue (t : String) : Option Int :=
+  if t.startsWith "h" then
+    match hex? (t.drop 1).toString with
+    | some bs => tokenInt (String.ofList (bs.map Char.ofNat))
+    | none => none
+  else t.toInt?
+
 def step (line : String) : String :=
   match fields line with
   | ["sc.ops", mode, ops] =>
@@ -151,6 +161,13 @@ def step (line : String) : String :=
         | none => "panic empty-quantiles"
       | none => "bad-op"
     | _, _, _, _ => "bad-op"
+  | ["num", t] =>
+    match hex? t with
+    | some bs =>
+      match parseNumSpec (bs.map Char.ofNat) with
+      | some (n, d) => s!"ok {fmtVal (.rat n d)}"
+      | none => "err"
+    | none => "bad-op"
   | ["pb.build", a] =>
     match parseAS a with
     | some a =>
@@ -190,7 +207,7 @@ def step (line : String) : String :=
         parsePostings g, parsePostings f with
     | some fn, some rev, some interval, some qs, some lids, some mids, some g, some f =>
       let gvals := (splitList gv).toArray
-      let fvals := ((splitList fv).map String.toInt?).toArray
+      let fvals := ((splitList fv).map fieldTokenValue).toArray
       let gval := fun i => gvals.getD i ""
       let fval := fun i => fvals.getD i none
       let tbl := lids.zip mids
